@@ -15,6 +15,8 @@ import (
 	"strconv"
 	"strings"
 
+	"github.com/tikv/client-go/v2/internal/apicodec"
+	"github.com/tikv/client-go/v2/internal/mockstore/mocktikv"
 	"github.com/tikv/client-go/v2/util/codec"
 )
 
@@ -146,6 +148,22 @@ func run(op string, args []string) string {
 				return errKind(err)
 			}
 			return "ok " + hx(rest) + " " + i64s(v)
+		case "me":
+			return hx(mocktikv.VerifMvccEncode(unhx(args[0]), parseU(args[1])))
+		case "md":
+			k, v, err := mocktikv.VerifMvccDecode(append([]byte{}, unhx(args[0])...))
+			if err != nil {
+				return "err"
+			}
+			return "ok " + hx(k) + " " + u64s(v)
+		case "mke":
+			return hx(apicodec.VerifMemEncodeKey(unhx(args[0])))
+		case "mkd":
+			k, err := apicodec.VerifMemDecodeKey(append([]byte{}, unhx(args[0])...))
+			if err != nil {
+				return "err"
+			}
+			return "ok " + hx(k)
 		case "cmp":
 			c := bytes.Compare(unhx(args[0]), unhx(args[1]))
 			return []string{"lt", "eq", "gt"}[c+1]
@@ -288,6 +306,34 @@ func propsInts(a, b int64, rest []byte) {
 	}
 }
 
+// composite keys: mvccEncode(key, ver) sorts by key ascending then version descending, round-trips, and is
+// never confused with the meta key or another pair
+func propsMvcc(k1 []byte, v1 uint64, k2 []byte, v2 uint64) {
+	defer func() {
+		if r := recover(); r != nil {
+			prop("mvcc_nopanic", false, hx(k1), u64s(v1), hx(k2), u64s(v2))
+		}
+	}()
+	e1, e2 := mocktikv.VerifMvccEncode(k1, v1), mocktikv.VerifMvccEncode(k2, v2)
+	k, v, err := mocktikv.VerifMvccDecode(append([]byte{}, e1...))
+	prop("mvcc_roundtrip", err == nil && bytes.Equal(k, k1) && v == v1, hx(k1), u64s(v1))
+	want := sign(bytes.Compare(k1, k2))
+	if want == 0 {
+		if v1 > v2 {
+			want = -1
+		} else if v1 < v2 {
+			want = 1
+		}
+	}
+	prop("mvcc_order", sign(bytes.Compare(e1, e2)) == want, hx(k1), u64s(v1), hx(k2), u64s(v2))
+	meta := codec.EncodeBytes(nil, k1)
+	prop("mvcc_meta_first", bytes.Compare(meta, e1) < 0, hx(k1), u64s(v1))
+	mk, mv, err := mocktikv.VerifMvccDecode(append([]byte{}, meta...))
+	prop("mvcc_meta_roundtrip", err == nil && bytes.Equal(mk, k1) && mv == 0, hx(k1))
+	dk, err := apicodec.VerifMemDecodeKey(apicodec.VerifMemEncodeKey(k1))
+	prop("memkey_roundtrip", err == nil && bytes.Equal(dk, k1), hx(k1))
+}
+
 var alphabet = []byte{0x00, 0x01, 0x7F, 0x80, 0xFE, 0xFF}
 
 func enumStrings(maxLen int, f func([]byte)) {
@@ -363,6 +409,14 @@ func main() {
 		emit("db", hx(d)) // malformed stream (too short)
 		propsBytes(d, prev, []byte{0xAA})
 		emit("cmp", hx(d), hx(prev))
+		if len(d) <= 3 {
+			for _, v := range []uint64{0, 1, 1<<64 - 1} {
+				emit("me", hx(d), u64s(v))
+				propsMvcc(d, v, prev, 1<<64-1-v)
+			}
+			emit("md", hx(d))
+			emit("mkd", hx(d))
+		}
 		prev = d
 	})
 	// 2. lengths around multiples of 8, random content; decoders fed encodings with mutated bytes
@@ -401,6 +455,29 @@ func main() {
 		}
 		emit("db", hx(m))
 		propsDecodeStrict(m)
+		// composite keys
+		vers := []uint64{0, 1, 2, 1<<63 - 1, 1 << 63, 1<<64 - 2, 1<<64 - 1, rng.Uint64(), rng.Uint64() >> uint(rng.Intn(64))}
+		va, vb := vers[rng.Intn(len(vers))], vers[rng.Intn(len(vers))]
+		emit("me", hx(a), u64s(va))
+		emit("mke", hx(a))
+		me := mocktikv.VerifMvccEncode(a, va)
+		emit("md", hx(me))
+		emit("md", hx(enc)) // meta key
+		emit("md", hx(m))   // malformed
+		emit("mkd", hx(m))
+		mm := append([]byte{}, me...)
+		switch rng.Intn(4) {
+		case 0:
+			mm = append(mm, rb(1+rng.Intn(2))...) // trailing bytes after the version
+		case 1:
+			mm = mm[:len(mm)-1-rng.Intn(7)] // truncated version
+		case 2:
+			mm[rng.Intn(len(mm))] ^= byte(1 << uint(rng.Intn(8)))
+		}
+		emit("md", hx(mm))
+		emit("mkd", hx(mm))
+		propsMvcc(a, va, b, vb)
+		propsMvcc(a, va, a, vb)
 		for _, op := range []string{"du", "dud", "di", "did", "duv", "dv", "dcu", "dcv"} {
 			emit(op, hx(m))
 		}
